@@ -52,6 +52,7 @@ type hsResult struct {
 	delivered bool
 	clientErr bool
 	virtual   time.Duration
+	checkedAfter, flowsAfter bool
 }
 
 func runHandshakeScenario(t *testing.T, l *evlog, q *oracle, cfg simCfg, p hsParams) hsResult {
@@ -127,6 +128,32 @@ func runHandshakeScenario(t *testing.T, l *evlog, q *oracle, cfg simCfg, p hsPar
 				s.advance(250 * time.Millisecond)
 			}
 		}
+		// both completed and the first message arrived: late duplicates of handshake packets
+		// are still queued or in flight; once they have been delivered data must keep flowing
+		if len(s.recvMsgs[1]) > 0 && s.hsReturned(0) && s.hsErr[0] == nil && s.hsReturned(1) && s.hsErr[1] == nil {
+			res.checkedAfter = true
+			sent2 := false
+			for it := 0; it < 400 && len(s.recvMsgs[1]) < 2; it++ {
+				moved := false
+				for x := 0; x < 2; x++ {
+					if s.canOp(x) {
+						s.op(x, "deliver")
+						moved = true
+					}
+				}
+				if sb, _ := s.busy(0); !sb && !sent2 {
+					sent2 = true
+					s.send(0, []byte("again"))
+				}
+				if _, rb := s.busy(1); !rb && len(s.recvMsgs[1]) < 2 {
+					s.recv(1)
+				}
+				if !moved {
+					s.advance(250 * time.Millisecond)
+				}
+			}
+			res.flowsAfter = len(s.recvMsgs[1]) >= 2
+		}
 		res.virtual = time.Since(start)
 		for x := 0; x < 2; x++ {
 			res.hsRet[x] = s.hsReturned(x)
@@ -183,6 +210,20 @@ func TestGenC10(t *testing.T) {
 			if !foreign {
 				q.check(res.srvN == int(cfg.n), "c10:server-n-differs-from-client:"+p.class, desc)
 			}
+		}
+		// "once the transport behaves a handshake succeeds and data flows": after both ends completed and
+		// every late duplicate has been delivered, a second message still gets through
+		onlyHs := true // a stale FIN legitimately closes and stale DATA/ACK/NACK belong to the data phase (C01/C06)
+		for _, l := range [][][]byte{p.staleAB, p.staleBA} {
+			for _, b := range l {
+				if len(b) == 0 || (b[0] != 1 && b[0] != 6) {
+					onlyHs = false
+				}
+			}
+		}
+		if res.checkedAfter && !foreign && onlyHs {
+			q.stat("completed_then_second_message", 1)
+			q.check(res.flowsAfter, "c10:completed-then-broken-by-late-handshake-packet:"+p.class, desc)
 		}
 		// convergence: transport reliable for > 100 s, client active (data or keepalive)
 		if p.sendData || cfg.ping > 0 {
@@ -282,6 +323,9 @@ func TestGenC10(t *testing.T) {
 		n := rr.pick([]int{2, 20})
 		cfg := mk(n, true)
 		other := n + 1 + rr.intn(3)
+		if rr.chance(1, 4) {
+			other = rr.pick([]int{0, 255})
+		}
 		var sa, sb [][]byte
 		if rr.chance(2, 3) {
 			sa = append(sa, syn(other))
@@ -304,8 +348,11 @@ func TestGenC10(t *testing.T) {
 		}
 	}
 	// (e) hostile SYN window values at a lone server, each in a child process
-	for _, n := range []int{0, 255, 1, 254} {
-		exit, outp := runChild("TestChildHostileSyn", fmt.Sprintf("VERIF_SYN_N=%d", n))
+	for _, hc := range [][2]int{{0, -1}, {255, -1}, {1, -1}, {254, -1}, {0, 10}, {255, 10}, {255, 255}, {0, 254}, {7, 10}} {
+		// hc[1] >= 0: a usable or unusable SYN is fed first, so that the hostile one arrives
+		// while the server waits for the SYNACK
+		n := hc[0]
+		exit, outp := runChild("TestChildHostileSyn", fmt.Sprintf("VERIF_SYN_N=%d", n), fmt.Sprintf("VERIF_SYN_PRE=%d", hc[1]))
 		crashed := exit != 0
 		verdict := ""
 		for _, ln := range strings.Split(outp, "\n") {
@@ -314,16 +361,16 @@ func TestGenC10(t *testing.T) {
 			}
 		}
 		q.stat("hostile_syn_children", 1)
-		q.check(!crashed, fmt.Sprintf("c07:hostile-syn-crash:N=%d", n), func() string {
+		q.check(!crashed, fmt.Sprintf("c07:hostile-syn-crash:N=%d,pre=%d", n, hc[1]), func() string {
 			return fmt.Sprintf("server fed SYN N=%d, SYNACK, DATA: process exit=%d, output tail: %s", n, exit, truncate(lastLines(outp, 12), 900))
 		})
 		if !crashed {
 			if n == 0 || n == 255 {
-				q.check(strings.Contains(verdict, "server-hs=err") || strings.Contains(verdict, "server-hs=pending"), fmt.Sprintf("c10:server-accepts-unrepresentable-n:N=%d", n), func() string {
+				q.check(strings.Contains(verdict, "server-hs=err") || strings.Contains(verdict, "server-hs=pending"), fmt.Sprintf("c10:server-accepts-unrepresentable-n:N=%d,pre=%d", n, hc[1]), func() string {
 					return fmt.Sprintf("server fed SYN N=%d, SYNACK: %s", n, verdict)
 				})
 			} else {
-				q.check(strings.Contains(verdict, "server-hs=ok"), fmt.Sprintf("c10:server-rejects-valid-n:N=%d", n), func() string {
+				q.check(strings.Contains(verdict, "server-hs=ok"), fmt.Sprintf("c10:server-rejects-valid-n:N=%d,pre=%d", n, hc[1]), func() string {
 					return fmt.Sprintf("server fed SYN N=%d, SYNACK: %s", n, verdict)
 				})
 			}
@@ -348,7 +395,7 @@ func TestChildHostileSyn(t *testing.T) {
 		t.Skip("child only")
 	}
 	n := int(envInt("VERIF_SYN_N", 255))
-	o := newOut(t, fmt.Sprintf("child_hostile_syn_%d.txt", n))
+	o := newOut(t, fmt.Sprintf("child_hostile_syn_%d_%d.txt", n, envInt("VERIF_SYN_PRE", -1)))
 	defer o.close()
 	l := &evlog{o: o}
 	verdict := "none"
@@ -364,6 +411,9 @@ func TestChildHostileSyn(t *testing.T) {
 				s.op(0, "deliver")
 			}
 			synctest.Wait()
+		}
+		if pre := int(envInt("VERIF_SYN_PRE", -1)); pre >= 0 {
+			feed(syn(pre))
 		}
 		feed(syn(n))
 		feed([]byte{6})
